@@ -1992,6 +1992,11 @@ func (query *Query) exec() (result any, err error) {
 			result, err = nil, recovered(r)
 		}
 	}()
+	// an execution starts from nothing: what an earlier execution of this
+	// query filtered and aggregated (over variables that may have changed
+	// since) is not part of this one
+	query.filtered = nil
+	query.aggregateResults = nil
 	if query.dual {
 		rs, err := ExecSelect(query, query.from)
 		if err != nil {
